@@ -7,6 +7,11 @@ package tls
 
 type verifConnState struct{}
 
+type verifKA struct{}
+
+func (c *Conn) verifKeyAgreement(ka keyAgreement)          {}
+func (ka *ecdheKeyAgreement) verifCurve(g CurveID) CurveID { return g }
+
 func (c *Conn) verifRewriteOut(msg handshakeMessage, data []byte) []byte      { return data }
 func (c *Conn) verifClientVersions(ch *clientHelloMsg, v []uint16) []uint16   { return v }
 func (c *Conn) verifCanary(random []byte)                                     {}
